@@ -1,49 +1,39 @@
-#include "sim.h"
+// lbzsim command line: check / replay / evidence / selftests.
 #include <cstdio>
 #include <cstdlib>
 #include <cstring>
-#include <ctime>
-using namespace sim;
+#include "core.h"
+#include "selftest.h"
 
-static double now() { struct timespec t; clock_gettime(CLOCK_MONOTONIC, &t); return t.tv_sec + t.tv_nsec / 1e9; }
+// sanitizer defaults: a report must end the worker process with exit code 77 so that the
+// driver can attribute it to the case that was executing (ASAN_OPTIONS may extend this)
+extern "C" __attribute__((used)) const char *__asan_default_options() { return "exitcode=77:detect_leaks=0:abort_on_error=0:detect_stack_use_after_return=0:allocator_may_return_null=1"; }
+extern "C" __attribute__((used)) const char *__ubsan_default_options() { return "halt_on_error=1:exitcode=77:print_stacktrace=1"; }
+extern "C" __attribute__((used)) const char *__tsan_default_options() { return "halt_on_error=1:exitcode=77:report_signal_unsafe=0:report_thread_leaks=0:second_deadlock_stack=0:history_size=4"; }
 
 int main(int argc, char **argv) {
-  size_t n = argc > 1 ? strtoul(argv[1], 0, 10) : 300000;
-  int nseeds = argc > 2 ? atoi(argv[2]) : 20;
-  int W = argc > 3 ? atoi(argv[3]) : 3;
+  setvbuf(stdout, nullptr, _IOLBF, 0);
+  if (argc < 2) { fprintf(stderr, "usage: lbzsim check <Cxx> <quick|thorough> | replay <file> [--gate] | evidence <Cxx> <tier> <variants...> | selftest-<name>\n"); return 2; }
+  std::string cmd = argv[1];
+  uint64_t seed = 1;
+  if (const char *e = getenv("VERIF_SEED")) seed = strtoull(e, 0, 10);
+  int jobs = 16;
+  if (const char *e = getenv("VERIF_JOBS")) jobs = atoi(e);
   sim::init();
-  Bytes in(n, 0);
-  uint64_t s = 12345;
-  for (size_t i = 0; i < n; i++) { s = s * 6364136223846793005ull + 1442695040888963407ull; in[i] = (s >> 60) < 11 ? 'a' + ((s >> 33) % 3) : in[i ? i - 1 : 0]; }
-  int bad = 0; double t0 = now(); uint64_t steps = 0;
-  Bytes z0;
-  for (int k = 0; k < nseeds; k++) {
-    Plan p; p.argv = {"lbzip2", "-n", std::to_string(W), "-1"}; if (k & 1) p.argv.push_back("-u");
-    p.world.in_data = in; p.world.in_kind = K_PIPE; p.world.in_frag.mode = FR_RANDOM; p.world.in_frag.param = 2;
-    p.sched.policy = 1 + k % 5; p.sched.seed = 1000 + k; p.sched.param = p.sched.policy == P_STARVE ? starve_masks[k % n_starve_masks] : 8; p.sched.spurious = 50;
-    Result r = run(p);
-    Result r2 = run(p);
-    steps += r.steps;
-    if (r.hash != r2.hash) { printf("NONDET seed %d\n", k); bad++; }
-    Plan pe = p; pe.sched.explicit_ = true; pe.sched.devs = r.devs;
-    Result r3 = run(pe);
-    if (r.hash != r3.hash) { printf("EXPLICIT REPLAY DIFFERS seed %d: %s vs %s\n", k, r.describe().c_str(), r3.describe().c_str()); bad++; }
-    if (!r.exited(0) || !r.err.empty() || !r.monitor.empty()) { printf("compress seed %d: %s\n", k, r.describe().c_str()); bad++; }
-    if (!(k & 1)) { if (z0.empty()) z0 = r.out; else if (z0 != r.out) { printf("C03 diff seed %d\n", k); bad++; } }
-    Plan d; d.argv = {"lbzip2", "-n", std::to_string(W), "-d"}; d.world.in_data = r.out; d.sched.policy = 1 + (k + 2) % 5; d.sched.seed = 5000 + k;
-    if (k % 3 == 0) { d.in_granul = 4 << (k % 7); d.out_granul = 1 + 1000 * (k % 5); }
-    Result rd = run(d);
-    steps += rd.steps;
-    if (!rd.exited(0) || !rd.err.empty() || rd.out != in || !rd.monitor.empty()) { printf("decompress seed %d: %s\n", k, rd.describe().c_str()); bad++; }
-    if (k < 3) {
-      printf("seed %d: z=%zu steps=%llu/%llu devs=%zu preempt=%llu peak=%zu states=%zu\n", k, r.out.size(), (unsigned long long)r.steps, (unsigned long long)rd.steps, r.devs.size(), (unsigned long long)r.preemptions, r.peak_heap, rd.states.size());
-      for (auto &kv : rd.reach) printf("   %s=%u", kv.first.c_str(), kv.second);
-      printf("\n");
-      for (auto &kv : rd.qmax) printf("   %s=%u/%u", kv.first.c_str(), kv.second.first, kv.second.second);
-      printf("\n");
-    }
+  if (cmd == "check" && argc >= 4) return core::run_check(argv[2], !strcmp(argv[3], "thorough"), seed, jobs);
+  if (cmd == "replay" && argc >= 3) return core::run_replay(argv[2], argc >= 4 && !strcmp(argv[3], "--gate"));
+  if (cmd == "evidence" && argc >= 4) {
+    std::vector<std::string> v;
+    for (int i = 4; i < argc; i++) v.push_back(argv[i]);
+    return core::write_evidence(argv[2], !strcmp(argv[3], "thorough"), seed, v);
   }
-  double dt = now() - t0;
-  printf("variant=%s seeds=%d bad=%d %.2fs %.1f runs/s avg steps %llu\n", variant(), nseeds, bad, dt, 4 * nseeds / dt, (unsigned long long)(steps / (2 * nseeds)));
-  return bad != 0;
+  if (cmd == "variants" && argc >= 4) {
+    core::Driver *d = core::find_driver(argv[2]);
+    if (!d) return 2;
+    printf("%s\n", d->variants(!strcmp(argv[3], "thorough")));
+    return 0;
+  }
+  if (cmd.rfind("selftest-", 0) == 0) return selftest::run(cmd.substr(9), argc - 2, argv + 2, seed, jobs);   // argv[0] of the selftest = first parameter
+  fprintf(stderr, "unknown command\n");
+  return 2;
 }
